@@ -205,6 +205,8 @@ def run(ctx):
     ctx.rule("ADJ-1", "bracket-class ranges x-y are formed only over runs of consecutive scalar values: the position function is the library order of all chars or a "
                       "constant-offset map verified at every breakpoint (surrogate gap), resp. the adjacency predicate agrees with 'next scalar value' on all breakpoint pairs")
     classprinter.adj1(ctx, lib)
+    ctx.rule("TOK-1", "the bracket-class printer emits members only: no shorthand / property class token among its string constants")
+    classprinter.tok1(ctx, lib)
     ctx.rule("UNI-1", "two alternatives are merged into a character class only under dominating single-code-point guards on both")
     ctx.rule("UNI-2", "`x?` is built from the alternative that is not the one known to be empty")
     ctx.rule("UNI-3", "a removed common prefix is re-attached in front and a removed common suffix behind the factored rest")
@@ -647,6 +649,8 @@ def brz0(ctx, lib):
             for s_ in blk["stmts"]:
                 if s_["k"] == "assign" and s_["place"]["l"] == dest and s_["place"]["proj"] and s_["place"]["proj"][0]["k"] == "deref":
                     rhs = d.rvalue(s_["rv"])
+        if rhs is None:
+            continue        # a mutable borrow of the entry without a store through it (e.g. `.take()`)
         stores.append((bi, t, idx, rhs))
     nb = na = 0
     states_term = None
@@ -672,7 +676,54 @@ def brz0(ctx, lib):
                     r = local.show(local.Defs(lib.body(clo[2])).local(0))
                     by_target = by_target or "target" in r
             label = any(x[0] == "call" and x[1].endswith("::weight") for x in local.walk(rhs)) if rhs is not None else False
-            if not pos or not same_list:
+            # the stored value must not depend on a variable that lives across different columns of the row (an accumulator declared per row and updated per group)
+            loops_ = fi.cfg.natural_loops()
+            inner = [(h, body) for h, body in loops_.items() if bi in body and e[0] not in (h,) and e[0] not in body - {h} or (bi in body and h != e[0] and e[0] not in body)]
+            inner = [(h, body) for h, body in loops_.items() if bi in body and e[0] not in body]
+            carried = None
+            if inner and rhs is not None:
+                h_, body_ = min(inner, key=lambda x: len(x[1]))
+                # outermost loop that contains the store but not the row iterator's next(): the loop over the edges / groups of this row
+                h_, body_ = max(inner, key=lambda x: len(x[1]))
+                seen_l, work_l = set(), []
+
+                def locals_of(j_):
+                    if isinstance(j_, dict):
+                        if "l" in j_ and "proj" in j_:
+                            yield j_["l"]
+                        for v_ in j_.values():
+                            yield from locals_of(v_)
+                    elif isinstance(j_, list):
+                        for v_ in j_:
+                            yield from locals_of(v_)
+                dest_l = t["dest"]["l"]
+                for bj, blk in F.iter_blocks():
+                    for s_ in blk["stmts"]:
+                        if s_["k"] == "assign" and s_["place"]["l"] == dest_l and s_["place"]["proj"]:
+                            work_l += list(locals_of(s_["rv"]))
+                while work_l:
+                    l_ = work_l.pop()
+                    if l_ in seen_l or l_ <= F.arg_count:
+                        continue
+                    seen_l.add(l_)
+                    blocks_ = []
+                    for dd in d.defs.get(l_, []):
+                        blocks_.append(dd[1])
+                        if dd[0] == "assign":
+                            work_l += list(locals_of(dd[3]["rv"]))
+                        else:
+                            work_l += [x for a_ in dd[2]["args"] for x in locals_of(a_)]
+                    ins_ = [b_ for b_ in blocks_ if b_ in body_]
+                    outs_ = [b_ for b_ in blocks_ if b_ not in body_]
+                    ty_ = norm(F.locals[l_]["ty"])
+                    if ins_ and outs_ and "Expression" in ty_:
+                        carried = (l_, F.locals[l_].get("name") or "_%d" % l_)
+            if carried:
+                ctx.violation("BRZ-0", (F.path, "entry depends on other columns"), "the value stored into a[i, j] depends on `%s`, which is initialised once per row and updated for every "
+                              "column: labels of edges to one target state are carried over into the entry of another target state" % carried[1], F.loc(t.get("line")))
+            elif not pos:
+                ctx.undecided("BRZ-0", F.path, "cannot recognise how the column of an edge's entry is computed", F.loc(t.get("line")))
+            elif not same_list:
                 ctx.violation("BRZ-0", (F.path, "column index"), "the column of an edge's entry is not the position of the edge's target in the state list that numbers the rows", F.loc(t.get("line")))
             elif not by_target:
                 ctx.violation("BRZ-0", (F.path, "column index"), "the column of an edge's entry is looked up by something other than the edge's target state", F.loc(t.get("line")))
@@ -686,7 +737,22 @@ def brz0(ctx, lib):
                 continue
             # ---- b[i]
             nb += 1
-            eps = rhs is not None and any(local.const_value(x) in ("", b"") for x in local.walk(rhs)) and any(x[0] == "call" and x[1].endswith("new_literal") for x in local.walk(rhs))
+            def is_eps(o_, depth=0):
+                if o_ is None:
+                    return False
+                if any(local.const_value(x) in ("", b"") for x in local.walk(o_)) and any(x[0] == "call" and x[1].endswith("new_literal") for x in local.walk(o_)):
+                    return True
+                if depth < 2:
+                    for x in local.walk(o_):
+                        hb = None
+                        if x[0] == "call" and lib.body(x[1]) is not None and not x[1].endswith("new_literal"):
+                            hb = lib.body(x[1])
+                        if x[0] == "agg" and x[1] == "closure" and lib.body(x[2]) is not None:
+                            hb = lib.body(x[2])
+                        if hb is not None and is_eps(local.Defs(hb).local(0), depth + 1):
+                            return True
+                return False
+            eps = is_eps(rhs)
             fin = False
             for g in guards.guards(F, bi):
                 o = local.peel(g["origin"])
@@ -705,7 +771,8 @@ def brz0(ctx, lib):
     # the result is b[0]
     r = d.local(0)
     idx0 = [x for x in local.walk(r) if x[0] == "call" and "Index<I> for ndarray::ArrayBase" in x[1]]
-    if idx0 and all(local.const_value(local.peel(x[2][1])) == 0 for x in idx0):
+    first0 = [x for x in local.walk(r) if x[0] == "call" and re.search(r"ArrayBase<S, D>>::first$|<impl \[T\]>::first$", x[1])]
+    if (idx0 and all(local.const_value(local.peel(x[2][1])) == 0 for x in idx0)) or (first0 and not idx0):
         ctx.ok("BRZ-0", F.path + ":result = b[0]", None, F.loc())
     else:
         ctx.violation("BRZ-0", (F.path, "result"), "the returned expression is not entry 0 of the solved system (%s)" % local.show(r)[:100], F.loc())
